@@ -10,6 +10,8 @@ RULE = ('case = (MAX_CACHE_SIZE, USE_FLOW_CONTROL, strategy, store/drain history
         'before and after: a refusal must change nothing, a store to an already cached timestamp must be accepted without '
         'overflow; the C02 accounting closes "every refusal is signalled"; non-trivial = execution with >=1 refusal or a '
         'store at the limit; distinct = distinct interleavings per history')
+RULE_MORE = (' Further configurations: datapoints entering through the real pipeline with tagged series in any spelling, RELAY_CACHE_METRICS re-injection during a drain, the real writer loop with backend faults, timesorted with a lag; the bound is also checked on the datapoints actually held.')
+RULE = RULE + RULE_MORE
 EXHAUSTIVE = {'quick': False, 'thorough': False}
 EXHAUSTIVE_OVER = 'all schedules with <=1 preemption of every generated history'
 ASSUMPTIONS = ['fractional hard limits are read as the integer capacity ceil(limit) (the code admits while size < limit); '
